@@ -30,32 +30,7 @@ def show_device(d) -> str:
 _RECEIVE_BUFFER = bytearray()
 
 
-class debug_logging:
-    """`with debug_logging():` - the library's loggers at DEBUG with a handler that formats every record and throws it away (the
-    harness otherwise runs with logging disabled): what a datagram leads to must not depend on the log level"""
-
-    def __enter__(self):
-        import logging
-
-        class Swallow(logging.Handler):
-            def emit(self, record):
-                record.getMessage()
-        self.lg = logging.getLogger("aioswitcher")
-        self.saved = (logging.root.manager.disable, self.lg.level, self.lg.propagate)
-        self.h = Swallow()
-        logging.disable(logging.NOTSET)
-        self.lg.setLevel(logging.DEBUG)
-        self.lg.propagate = False
-        self.lg.addHandler(self.h)
-        return self
-
-    def __exit__(self, *exc):
-        import logging
-        self.lg.removeHandler(self.h)
-        self.lg.setLevel(self.saved[1])
-        self.lg.propagate = self.saved[2]
-        logging.disable(self.saved[0])
-        return False
+debug_logging = C.debug_logging
 
 
 def parse_direct(hexdgram: str, how: str = "bytes") -> str:
@@ -251,7 +226,7 @@ def default_ports() -> List[int]:
     return list(inspect.signature(SwitcherBridge.__init__).parameters["broadcast_ports"].default)
 
 
-CALLBACK_FORMS = ("function", "lambda", "method", "partial", "callable-object", "start-again", "other-bridge")
+CALLBACK_FORMS = ("function", "lambda", "method", "partial", "callable-object", "start-again", "other-bridge", "optional-second-parameter")
 
 
 def callback_in_form(form: str, target):
@@ -268,6 +243,13 @@ def callback_in_form(form: str, target):
             def on_device(self, device):
                 self.t(device)
         return Handler(target).on_device
+    if form == "optional-second-parameter":
+        # a callback that HAS a second parameter of its own, with a default: the bridge calls callbacks with the device, nothing else
+        def with_default(device, note=None, *, flag=False):
+            if note is not None or flag:
+                raise TypeError("the callback was handed more than the device")
+            target(device)
+        return with_default
     if form == "partial":
         return functools.partial(target)
     if form == "callable-object":
@@ -397,6 +379,40 @@ async def _run_bridge_sequence(nports: int, arrivals: List[Tuple[int, str]], fai
     tx.close()
     shown = " | ".join(f"{p} {d}" for p, d in order) if order else "-"
     return shown, loop_errors
+
+
+async def _bridge_fate(hexdgram: str) -> str:
+    """what a datagram leads to when it ARRIVES at a running bridge (not when the parser is called on it): device | warn | ignored"""
+    from aioswitcher.bridge import SwitcherBridge
+    loop = asyncio.get_running_loop()
+    errs: List[str] = []
+    loop.set_exception_handler(lambda l, ctx: errs.append(type(ctx.get("exception")).__name__))
+    ports = free_udp_ports(1)
+    col = Collector(())
+    bridge = SwitcherBridge(col, ports)
+    tx = socket.socket(socket.AF_INET, socket.SOCK_DGRAM)
+    with warnings.catch_warnings(record=True) as w:
+        warnings.simplefilter("always")
+        await bridge.start()
+        try:
+            tx.sendto(bytes.fromhex(hexdgram) if hexdgram != "-" else b"", ("127.0.0.1", ports[0]))
+            tx.sendto(sentinel_datagram(1), ("127.0.0.1", ports[0]))
+            ok = await pump(lambda: col.sentinels > 0, timeout=1.5)
+        finally:
+            await bridge.stop()
+            await asyncio.sleep(0)
+            tx.close()
+    if not ok:
+        return "BARRIER-LOST"
+    if errs:
+        return "raise " + errs[0]
+    if col.calls:
+        return "device"
+    return "warn" if any("unknown" in str(x.message) for x in w) else ("warn-other" if w else "ignored")
+
+
+def bridge_fate(hexdgram: str) -> str:
+    return H.loop().run_until_complete(_bridge_fate(hexdgram))
 
 
 GIVE_UP_AFTER = 3  # lost barriers after which further sequences are not attempted (set to a large number while shrinking a failure)
